@@ -40,7 +40,7 @@ Theorem C15_queue_rules :
   (forall m, m <> QDone -> reader_result RClosed m = KReaderClosed) /\
   (forall m, In m [QRead; QRNext; QAvailable] -> reader_result RIdle m = KInactiveTx) /\
   reader_result RInTx QBegin = KUnexpectedActiveTx /\
-  (forall e t, ack_result true e t false = KQueueClosed) /\
+  (forall e t z, ack_result true e t z = KQueueClosed) /\   (* also an ACK of 0 events: fix D31 *)
   (forall t, ack_result false true t false = KACKEmptyQueue) /\
   ack_result false false true false = KACKTooMany.
 Proof.
